@@ -31,6 +31,8 @@ pub enum SerializableTerm {
     Constant(i64),
     StringConstant(String),
     FloatConstant(f64),
+    /// Boolean constant (true / false)
+    BoolConstant(bool),
     Placeholder,
     /// Aggregate function with variable name (e.g., `count<X>`, `sum<Amount>`)
     Aggregate(AggregateFunc, String),
@@ -135,6 +137,7 @@ impl SerializableTerm {
             Term::Constant(val) => SerializableTerm::Constant(*val),
             Term::StringConstant(s) => SerializableTerm::StringConstant(s.clone()),
             Term::FloatConstant(f) => SerializableTerm::FloatConstant(*f),
+            Term::BoolConstant(b) => SerializableTerm::BoolConstant(*b),
             Term::Placeholder => SerializableTerm::Placeholder,
             Term::Aggregate(func, var) => SerializableTerm::Aggregate(func.clone(), var.clone()),
             Term::Arithmetic(expr) => {
@@ -152,6 +155,7 @@ impl SerializableTerm {
             SerializableTerm::Constant(val) => Term::Constant(*val),
             SerializableTerm::StringConstant(s) => Term::StringConstant(s.clone()),
             SerializableTerm::FloatConstant(f) => Term::FloatConstant(*f),
+            SerializableTerm::BoolConstant(b) => Term::BoolConstant(*b),
             SerializableTerm::Placeholder => Term::Placeholder,
             SerializableTerm::Aggregate(func, var) => Term::Aggregate(func.clone(), var.clone()),
             SerializableTerm::Arithmetic(expr) => Term::Arithmetic(expr.to_arith_expr()),
